@@ -517,7 +517,7 @@ def store_pair(ctx: Ctx) -> None:
             fresh,
             f"`return {unparse(v, 30)}` must be a fresh blockwise/general_blockwise operation writing to this call's target"
             + ("" if fresh else f" — it returns {sorted(rs)[:2]}: the shared source array re-targeted in place, so a second pair with the same source overwrites the first pair's target binding"),
-            sel=f"pair:return:{unparse(v, 20)}:under[{'; '.join(sorted(('' if pol else 'not ') + unparse(t, 50) for t, pol in facts))[:160]}]",
+            sel=f"pair:return:{ctx.anon(f, v, 20) if v is not None else ''}:under[{'; '.join(sorted(('' if pol else 'not ') + ctx.anon(f, t, 50) for t, pol in facts))[:160]}]",
         )
 
 
